@@ -420,6 +420,13 @@ func (tx *FnTx) binop(x *ssa.BinOp, st *State) {
 		}
 		tx.safety("div", "(not (= "+b.S+" 0))", "division by "+x.Y.Name()+" (non-zero)")
 		s = sapp("tdiv", a.S, b.S)
+		if _, isConst := x.Y.(*ssa.Const); !isConst {
+			// sound lemma instance for division by a symbolic divisor (helps the nonlinear solvers)
+			q := tx.define(x, s)
+			tx.assume(simp(sand("(> "+b.S+" 0)", "(>= "+a.S+" 0)"), sand("(>= "+q.S+" 0)", "(<= (* "+q.S+" "+b.S+") "+a.S+")", "(< "+a.S+" (+ (* "+q.S+" "+b.S+") "+b.S+"))")))
+			tx.assume(simp(sand("(> "+b.S+" 0)", "(< "+a.S+" 0)"), sand("(<= "+q.S+" 0)", "(>= (* "+q.S+" "+b.S+") "+a.S+")", "(> "+a.S+" (- (* "+q.S+" "+b.S+") "+b.S+"))")))
+			return
+		}
 	case token.REM:
 		tx.safety("div", "(not (= "+b.S+" 0))", "modulo by "+x.Y.Name()+" (non-zero)")
 		s = sapp("tmod", a.S, b.S)
